@@ -72,7 +72,16 @@ pub fn check_schedule_opt(role: &str, log: &[Event], id: u64, items: &[Item], al
                     }
                     // otherwise: an extra harmless append, tolerated
                 }
-                (Item::Challenge { .. }, Event::Challenge { .. }) => {
+                (Item::Challenge { label, protocol, .. }, Event::Challenge { label: l, .. }) => {
+                    // a label chosen by the application must reach the transcript as given (protocol
+                    // labels are matched by position: their spelling is C18's business)
+                    if !*protocol && l != label {
+                        return Err(Failure::new(
+                            format!("C06:{}:user-challenge-label", role),
+                            format!("{} derives the application's challenge `{}` under the label `{}`: labels are not passed on unambiguously", role, String::from_utf8_lossy(label), String::from_utf8_lossy(l)),
+                            what(format!("item #{} {}", k, it.what())),
+                        ));
+                    }
                     found = true;
                     last = li;
                     break;
